@@ -285,7 +285,17 @@ type conv struct {
 	end     int
 }
 
+// postRefused: the server closes the POST connection at once when it finds no GET channel for the
+// cookie (it answers the GET before registering it, so a quick POST can lose that race).
+func postRefused(pc net.Conn) bool {
+	pc.SetReadDeadline(time.Now().Add(60 * time.Millisecond))
+	one := make([]byte, 1)
+	_, err := pc.Read(one)
+	return err != nil && !isTimeout(err)
+}
+
 type convResult struct {
+	tunnelRace   bool
 	sent         int   // bytes written on the first connection
 	statuses     []int // per itReq/itRawResp item: status code, 0 = none (closed or timeout)
 	frames       int   // interleaved frames received
@@ -532,6 +542,10 @@ func runConv(port int, useTLS bool, cv *conv, tm timing) convResult {
 		pc.SetDeadline(time.Now().Add(tm.resp))
 		if _, err = io.WriteString(pc, httpPost(cookie)); err != nil {
 			res.closedBySrv = true
+			return res
+		}
+		if postRefused(pc) {
+			res.tunnelRace = true
 			return res
 		}
 		pc.SetDeadline(time.Time{})
